@@ -78,6 +78,29 @@ def get_method(fl_channel):
         return compute_ctc3
 
 
+def identify_optional_data(mm):
+    """Requirement function for the two-channel recipes
+
+    :func:`compute_ctc` uses all crosstalk values and checks for all
+    fluorescence channels available in the dataset, not only those
+    listed in `req_config` and `req_features`. Their values and
+    availabilities must be part of the ancillary feature hash, so
+    that the cached data are recomputed when one of them changes.
+    """
+    calccfg = mm.config["calculation"]
+    idlist = []
+    for i in [1, 2, 3]:
+        for j in [1, 2, 3]:
+            if i == j:
+                continue
+            key = "crosstalk fl{}{}".format(i, j)
+            idlist.append((key, calccfg.get(key)))
+    idlist.append(("fl1_max", "fl1_max" in mm))
+    idlist.append(("fl2_max", "fl2_max" in mm))
+    idlist.append(("fl3_max", "fl3_max" in mm))
+    return idlist
+
+
 def register():
     opts_all = (["fl1_max",
                  "fl2_max",
@@ -116,6 +139,7 @@ def register():
                          method=get_method(flch),
                          req_features=opts_12[0],
                          req_config=[["calculation", opts_12[1]]],
+                         req_func=identify_optional_data,
                          priority=0)
 
     for flch in [1, 3]:
@@ -123,6 +147,7 @@ def register():
                          method=get_method(flch),
                          req_features=opts_13[0],
                          req_config=[["calculation", opts_13[1]]],
+                         req_func=identify_optional_data,
                          priority=0)
 
     for flch in [2, 3]:
@@ -130,4 +155,5 @@ def register():
                          method=get_method(flch),
                          req_features=opts_23[0],
                          req_config=[["calculation", opts_23[1]]],
+                         req_func=identify_optional_data,
                          priority=0)
